@@ -15,7 +15,7 @@ def build_files(sc, sid):
     xdir, xpkg, xname = {
         "sibling": ("p", "p", "b.go"), "test": ("p", "p", "b_test.go"), "xtest": ("p", "p_test", "x_test.go"),
         "tdpath": ("xtestdatax", "q", "q.go"), "genpath": ("zzGen", "q", "q.go"),
-        "testdecl": ("p", "p", "b_test.go"),
+        "testdecl": ("p", "p", "b_test.go"), "linehdr": ("p", "p", "b.go"),
         "genfile": ("p", "p", "b_zzGen.go"), "genfirst": ("p", "p", "0_zzGen.go"), "gentest": ("p", "p", "b_zzGen_test.go"),
     }[cls]
     x = []
@@ -34,7 +34,16 @@ def build_files(sc, sid):
         where["X3"] = ("%s/%s" % (xdir, xname), len(x), "TONL02")
         x.append("")
     x.append("var _ d.S")
+    if xpkg == "p":
+        x += ["", "// M of Box does not have the signature d.I asks for."]
+        x.append("func (b Box) M() {}")
+        where["A5x"] = ("%s/%s" % (xdir, xname), len(x), "IMPL03")
     xsrc = "\n".join(x) + "\n"
+    if cls == "linehdr":
+        # the directive is line 1 on disk: line k of the list above is line k of zzGen/b.go
+        xsrc = "//line zzGen/b.go:1\n" + xsrc
+        for k in list(where):
+            where[k] = ("p/zzGen/b.go", where[k][1], where[k][2])
     # ---- a.go
     a = ["package p", "", "import ("] + (['\tq "m/%s"' % xdir] if cls in ("tdpath", "genpath") and s["ann"] else []) + ['\t"m/d"', ")", "",
          "func base(p *d.T) {", "\tp.X = 1"]
@@ -50,7 +59,9 @@ def build_files(sc, sid):
     # the qualifier lib is not bound in a.go (only file X imports m/lib)
     a += ["// AI claims an interface of a package this file does not import.", "// @implements lib.I", "type AI struct{}"]
     where["A4"] = ("p/a.go", len(a), "IMPL01")
-    a += ["", "func (AI) M() {}", ""]
+    a += ["", "func (AI) M() {}", "", "// Box claims d.I; its only method M is declared in another file.", "// @implements d.I", "type Box struct{}"]
+    where["A5"] = ("p/a.go", len(a), "IMPL03")
+    a.append("")
     asrc = "\n".join(a) + "\n"
     pfiles = [{"name": "p/a.go", "src": asrc}]
     if cls in ("tdpath", "genpath"):
